@@ -38,7 +38,7 @@ def plumbing(ctx, mergetree=True):
       "Python-level multiplicity is proven capped before it reaches a uint32 parameter; ceilings/table dtypes/kernel "
       "signatures agree; _find_base returns a base only after a residual check of its defining equation, raising ValueError otherwise "
       "(findbase-post, which also proves the solver's unsigned subtractions non-negative at the constructors' calls); the log merges "
-      "store the ceiling when the decoded sum reaches max_count (logmerge-shape); every path of the heavy-hitter cell update is a match "
+      "store the ceiling when the decoded sum reaches max_count and otherwise choose the nearer of the two neighbouring counters by their decoded values (logmerge-shape); every path of the heavy-hitter cell update is a match "
       "(count = min(c + v, ceiling)), a replacement or a decrement (bm-table). "
       "Not decided: floating-point accuracy of that residual test and the float-derived re-encoding stores of _merge_log*.")
 def c18(ctx):
@@ -51,7 +51,8 @@ def c18(ctx):
     RA.rule_call_range(ctx)
     RA.rule_logstep(ctx)
     RA.rule_findbase_post(ctx)
-    RM.rule_logmerge_shape(ctx, rounding=False)       # C18: the reserved-range and ceiling branches of the log merge; rounding is C09's
+    RM.rule_logmerge_shape(ctx)       # C18: the reserved-range and ceiling branches of the log merge, and -- for "no merge ever lowers an
+    #                                   estimate" -- the nearest-counter choice between clower and clower+1 against their real decoded values
     with ctx.only({"bm-table"}):
         RH.rule_bm_table(ctx)      # "a heavy-hitter count that fills its cells alone only grows": on a match the count is min(c + v, ceiling), on every path
     ctx.floor("findbase-post", 3)
@@ -107,6 +108,7 @@ def c01(ctx):
     RT.rule_deleg(ctx, lin)
     RT.rule_persist(ctx, lin)
     RT.rule_layout(ctx, lin)
+    RT.rule_observers(ctx, lin)        # N in the bound is n_added(): it must read the element counter
     plumbing(ctx)
     ctx.floor("qmin", 5)
     ctx.floor("cons", 3)
@@ -186,6 +188,7 @@ def c03(ctx):
     RT.rule_deleg(ctx, hh)
     RT.rule_persist(ctx, hh)
     RT.rule_post_load(ctx)
+    RT.rule_observers(ctx, hh)
     plumbing(ctx)
     ctx.floor("window", 4)
     ctx.floor("keyid", 3)
@@ -229,6 +232,7 @@ def c04(ctx):
     RA.rule_call_range(ctx, only=RA.class_kernels(F, hh))
     RT.rule_deleg(ctx, hh)
     RT.rule_value_fwd(ctx, hh)
+    RT.rule_observers(ctx, hh)         # W_r and the default threshold are stated in terms of n_added()
     plumbing(ctx)
     ctx.floor("keyid", 3)
     ctx.floor("bm-table", 8)
@@ -392,6 +396,7 @@ def c12(ctx):
     RM.rule_randtoken(ctx)
     RA.rule_newcount(ctx)
     RA.rule_nadd_once(ctx, RA.add_kernels(facts_of(ctx)))       # add(key, v) moves the bookkeeping counter by v, once: the same as v single adds
+    RT.rule_observers(ctx)             # 'identical resulting state' is observed through n_added()/n_records() too
     ctx.floor("logstep", 8)
     ctx.floor("deleg", 12)
     ctx.floor("window", 20)
@@ -498,6 +503,7 @@ def c14(ctx):
     RA.rule_msum(ctx)
     with ctx.only({"guard-set"}):
         RT.rule_mergeguard(ctx, lin)
+    RT.rule_observers(ctx, lin)        # N = n_added() in e*N/width
     ctx.floor("seedrow", 10)
     ctx.undecided_clauses.append("uniformity of FastHash within a row and independence across seeds; the exp(-depth) bound itself -- statistical, not decided")
 
